@@ -54,3 +54,78 @@ c04_poisson!(c04_poisson_f64, f64);
 //@ bounds: every f32 bit pattern
 //@ assumes: libm::expf, libm::sqrtf by contract
 c04_poisson!(c04_poisson_f32, f32);
+
+// ------------------------------------------------------------------------------------------
+// C03 / C02: Knuth product method (lambda < 12) and one pass of the PD rejection method
+// ------------------------------------------------------------------------------------------
+macro_rules! c03_poisson_knuth {
+    ($name:ident, $f:ty) => {
+        vproof! {
+            #[kani::unwind(6)]
+            fn $name() {
+                let lambda: $f = kani::any();
+                kani::assume(lambda < 12.0);
+                let d = match Poisson::<$f>::new(lambda) { Ok(d) => d, Err(_) => return };
+                let mut rng = SymRng::new(4);
+                // (the Method::Knuth arm of Poisson::sample, called directly to keep the PD method out of the formula)
+                let x: $f = match &d.0 { Method::Knuth(m) => m.sample(&mut rng), _ => return };
+                // Knuth: result k needs exactly k+1 draws
+                vassert!(x == (rng.pos - 1) as $f, "Poisson(Knuth): result is not (number of draws - 1)");
+                kani::cover!(rng.pos == 1, "result 0");
+                kani::cover!(rng.pos == 4, "result 3");
+            }
+        }
+    };
+}
+//@ id: c03_poisson_knuth_f64
+//@ prop: C03
+//@ tier: quick
+//@ cap: 600
+//@ funcs: Poisson::<f64>::new; KnuthMethod::<f64>::sample
+//@ bounds: every lambda in (0, 12); returns within 4 words
+//@ assumes: libm::exp by contract
+c03_poisson_knuth!(c03_poisson_knuth_f64, f64);
+//@ id: c03_poisson_knuth_f32
+//@ prop: C03
+//@ tier: quick
+//@ cap: 600
+//@ funcs: Poisson::<f32>::new; KnuthMethod::<f32>::sample
+//@ bounds: every lambda in (0, 12); returns within 4 words
+//@ assumes: libm::expf by contract
+c03_poisson_knuth!(c03_poisson_knuth_f32, f32);
+
+macro_rules! c03_poisson_rej {
+    ($name:ident, $f:ty, $maxl:expr) => {
+        vproof_zstub! {
+            #[kani::unwind(4)]
+            fn $name() {
+                let lambda: $f = kani::any();
+                kani::assume(lambda >= 12.0 && lambda <= $maxl);
+                let d = match Poisson::<$f>::new(lambda) { Ok(d) => d, Err(_) => return };
+                let mut rng = SymRng::new(4);
+                let x: $f = match &d.0 { Method::Rejection(m) => m.sample(&mut rng), _ => return };
+                vassert!(x == x, "Poisson(rejection) sample is NaN");
+                vassert!(x >= 0.0, "Poisson(rejection) sample is negative");
+                vassert!(x.is_finite(), "Poisson(rejection) sample is infinite");
+                kani::cover!(rng.pos == 1, "step I accept");
+                kani::cover!(rng.pos == 4, "step E/H accept");
+            }
+        }
+    };
+}
+//@ id: c03_poisson_rejection_f64
+//@ prop: C03
+//@ tier: quick
+//@ cap: 1500
+//@ funcs: Poisson::<f64>::new; RejectionMethod::<f64>::sample (steps N, I, S, Q, one pass of E/H, F); Normal::sample
+//@ bounds: lambda in [12, 1e15]; returns within 4 words (steps N/I/S/Q and one E/H trial)
+//@ assumes: utils::ziggurat, libm::{exp,log,pow,sqrt} by contract
+c03_poisson_rej!(c03_poisson_rejection_f64, f64, 1e15);
+//@ id: c03_poisson_rejection_f32
+//@ prop: C03
+//@ tier: quick
+//@ cap: 1500
+//@ funcs: Poisson::<f32>::new; RejectionMethod::<f32>::sample
+//@ bounds: lambda in [12, 1e7]; returns within 4 words
+//@ assumes: utils::ziggurat, libm::{expf,logf,powf,sqrtf} by contract
+c03_poisson_rej!(c03_poisson_rejection_f32, f32, 1e7);
